@@ -65,8 +65,8 @@ func probe(a arg) (string, string) {
 	if s := n.String(); s != want {
 		return "string", fmt.Sprintf("String(%d) under DefaultFormat=%#x = %q want %q", a.N, a.DefFmt, s, want)
 	}
-	if s := fmt.Sprintf("%s|%v", n, n); s != want+"|"+want {
-		return "verb_s", fmt.Sprintf("%%s|%%v of %d under DefaultFormat=%#x = %q want %q", a.N, a.DefFmt, s, want)
+	if s := fmt.Sprintf("%s", n); s != want {
+		return "verb_s", fmt.Sprintf("%%s of %d under DefaultFormat=%#x = %q want %q", a.N, a.DefFmt, s, want)
 	}
 	if k, d := back(want, a.N, fmt.Sprintf("n=%d DefaultFormat=%#x", a.N, a.DefFmt)); k != "" {
 		return k, d
